@@ -32,6 +32,12 @@ pub enum Op {
     DropRx(usize),
     Yield,
     Panic,
+    /// increment the shared counter under the mutex; observes the value before
+    LockInc,
+    /// the same, then `notify_all` on the condition variable
+    LockIncNotify,
+    /// lock; wait on the condition variable until the counter is at least this; observes the value
+    WaitAtLeast(u32),
 }
 
 #[derive(Clone, Debug)]
@@ -61,6 +67,7 @@ pub enum Obs {
     JoinOk,
     JoinErr,
     NoEndpoint,
+    Counter(u32),
 }
 
 pub type Outcome = Vec<Vec<Obs>>;
@@ -69,6 +76,11 @@ pub trait Backend: 'static {
     type Tx: Clone + Send + 'static;
     type Rx: Send + 'static;
     type Join;
+    /// a counter under a mutex, with a condition variable
+    type Lk: Clone + Send + 'static;
+    fn new_lk() -> Self::Lk;
+    fn lock_inc(lk: &Self::Lk, notify: bool) -> u32;
+    fn wait_at_least(lk: &Self::Lk, x: u32) -> u32;
     fn chan(cap: Option<usize>) -> (Self::Tx, Self::Rx);
     fn send(tx: &Self::Tx, v: u32) -> bool;
     /// Ok, Err(true) = full, Err(false) = disconnected; None = not applicable (unbounded sender)
@@ -81,7 +93,7 @@ pub trait Backend: 'static {
     fn yield_now();
 }
 
-fn body<B: Backend>(me: usize, ops: &[Op], mut txs: Vec<Option<B::Tx>>, mut rxs: Vec<Option<B::Rx>>, log: &Arc<Mutex<Vec<Obs>>>) {
+fn body<B: Backend>(me: usize, ops: &[Op], mut txs: Vec<Option<B::Tx>>, mut rxs: Vec<Option<B::Rx>>, lk: B::Lk, log: &Arc<Mutex<Vec<Obs>>>) {
     let put = |o: Obs| log.lock().unwrap_or_else(|p| p.into_inner()).push(o);
     for (i, op) in ops.iter().enumerate() {
         let val = ((me as u32) << 8) | i as u32;
@@ -130,6 +142,9 @@ fn body<B: Backend>(me: usize, ops: &[Op], mut txs: Vec<Option<B::Tx>>, mut rxs:
             }
             Op::Yield => B::yield_now(),
             Op::Panic => std::panic::resume_unwind(Box::new(())),
+            Op::LockInc => put(Obs::Counter(B::lock_inc(&lk, false))),
+            Op::LockIncNotify => put(Obs::Counter(B::lock_inc(&lk, true))),
+            Op::WaitAtLeast(x) => put(Obs::Counter(B::wait_at_least(&lk, *x))),
         }
     }
     // the end of a thread drops its endpoints one by one, other threads may act in between
@@ -162,6 +177,7 @@ pub fn run_prog<B: Backend>(p: &Prog) -> Outcome {
         }
         drop(tx);
     }
+    let lk = B::new_lk();
     let mut joins = Vec::new();
     let mut main_tx = None;
     let mut main_rx = None;
@@ -173,9 +189,10 @@ pub fn run_prog<B: Backend>(p: &Prog) -> Outcome {
         }
         let ops = p.threads[t].clone();
         let log = logs[t].clone();
-        joins.push(B::spawn(Box::new(move || body::<B>(t, &ops, tx, rx, &log))));
+        let lk2 = lk.clone();
+        joins.push(B::spawn(Box::new(move || body::<B>(t, &ops, tx, rx, lk2, &log))));
     }
-    body::<B>(0, &p.threads[0], main_tx.unwrap(), main_rx.unwrap(), &logs[0]);
+    body::<B>(0, &p.threads[0], main_tx.unwrap(), main_rx.unwrap(), lk, &logs[0]);
     for j in joins {
         let ok = B::join(j);
         logs[0].lock().unwrap_or_else(|p| p.into_inner()).push(if ok { Obs::JoinOk } else { Obs::JoinErr });
@@ -188,10 +205,11 @@ pub fn run_prog<B: Backend>(p: &Prog) -> Outcome {
 // ---------------------------------------------------------------------------
 
 macro_rules! backend {
-    ($name:ident, $mp:path, $th:path, $yield_now:expr) => {
+    ($name:ident, $mp:path, $th:path, $sy:path, $yield_now:expr) => {
         pub struct $name;
         const _: () = {
             use $mp as mp;
+            use $sy as sy;
             use $th as th;
             #[derive(Clone)]
             pub enum Tx {
@@ -202,6 +220,29 @@ macro_rules! backend {
                 type Tx = Tx;
                 type Rx = mp::Receiver<u32>;
                 type Join = th::JoinHandle<()>;
+                type Lk = std::sync::Arc<(sy::Mutex<u32>, sy::Condvar)>;
+                fn new_lk() -> Self::Lk {
+                    std::sync::Arc::new((sy::Mutex::new(0), sy::Condvar::new()))
+                }
+                fn lock_inc(lk: &Self::Lk, notify: bool) -> u32 {
+                    let v = {
+                        let mut g = lk.0.lock().unwrap_or_else(|p| p.into_inner());
+                        let v = *g;
+                        *g = v + 1;
+                        v
+                    };
+                    if notify {
+                        lk.1.notify_all();
+                    }
+                    v
+                }
+                fn wait_at_least(lk: &Self::Lk, x: u32) -> u32 {
+                    let mut g = lk.0.lock().unwrap_or_else(|p| p.into_inner());
+                    while *g < x {
+                        g = lk.1.wait(g).unwrap_or_else(|p| p.into_inner());
+                    }
+                    *g
+                }
                 fn chan(cap: Option<usize>) -> (Tx, Self::Rx) {
                     match cap {
                         None => {
@@ -260,9 +301,9 @@ fn real_yield() {
     }
 }
 
-backend!(Real, std::sync::mpsc, std::thread, real_yield());
-backend!(Sim, dstsim::shim::std::sync::mpsc, dstsim::shim::std::thread, dstsim::yield_now());
-backend!(Shut, shuttle::sync::mpsc, shuttle::thread, shuttle::thread::yield_now());
+backend!(Real, std::sync::mpsc, std::thread, std::sync, real_yield());
+backend!(Sim, dstsim::shim::std::sync::mpsc, dstsim::shim::std::thread, dstsim::shim::std::sync, dstsim::yield_now());
+backend!(Shut, shuttle::sync::mpsc, shuttle::thread, shuttle::sync, shuttle::thread::yield_now());
 
 // ---------------------------------------------------------------------------
 // generation
@@ -292,6 +333,14 @@ pub fn gen_prog(seed: u64, idx: u64, with_panic: bool) -> Prog {
         let len = 1 + g.below(if nthreads == 2 { 4 } else { 3 }) as usize;
         let mut ops = Vec::new();
         for _ in 0..len {
+            if g.chance(1, 5) {
+                ops.push(match g.below(4) {
+                    0 => Op::LockInc,
+                    1 | 2 => Op::LockIncNotify,
+                    _ => Op::WaitAtLeast(1 + g.below(3) as u32),
+                });
+                continue;
+            }
             let c = g.below(nchans as u64) as usize;
             let holds_tx = tx_holders[c].contains(&t);
             let holds_rx = rx_owner[c] == t;
@@ -309,7 +358,12 @@ pub fn gen_prog(seed: u64, idx: u64, with_panic: bool) -> Prog {
                 7 if holds_rx => Op::TryRecv(c),
                 8 if holds_tx => Op::DropTx(c),
                 9 if holds_rx => Op::DropRx(c),
-                10 => Op::Yield,
+                10 if g.chance(1, 2) => Op::Yield,
+                10 => match g.below(4) {
+                    0 => Op::LockInc,
+                    1 | 2 => Op::LockIncNotify,
+                    _ => Op::WaitAtLeast(1 + g.below(3) as u32),
+                },
                 11 if panic_left && t != 0 => {
                     panic_left = false;
                     Op::Panic
